@@ -426,9 +426,14 @@ func lexString(l *lexer) stateFn {
 			l.pos += len(delimOpenInterpolate)
 			l.emit(tokenInterpolateOpen)
 			l.mode = modeInterpolate
+			// Parentheses opened before the string (function arguments, groups,
+			// lists) must not hide the closing brace of the interpolation.
+			outer := l.parens
+			l.parens = 0
 			for ins := lexExpression; ins != nil; {
 				ins = ins(l)
 			}
+			l.parens = outer
 			if l.mode == modeClosed {
 				return nil
 			}
